@@ -26,25 +26,25 @@ func init() {
 }
 
 func runC02(c *core.Ctx) {
-	ruleNoArgMutation(c, "C02-R1")
-	ruleInStreamGuards(c, "C02-R2")
-	ruleXRefCompleteness(c)
-	ruleKeyFieldAgreement(c)
-	ruleOptionTables(c)
-	ruleStringEncryptionUnconditional(c, "C02-R6")
-	ruleWriteMethodsPure(c, "C02-R7", 9)
-	ruleXRefWidthAgreement(c)
+	c.Guard(func() { ruleNoArgMutation(c, "C02-R1") })
+	c.Guard(func() { ruleInStreamGuards(c, "C02-R2") })
+	c.Guard(func() { ruleXRefCompleteness(c) })
+	c.Guard(func() { ruleKeyFieldAgreement(c) })
+	c.Guard(func() { ruleOptionTables(c) })
+	c.Guard(func() { ruleStringEncryptionUnconditional(c, "C02-R6") })
+	c.Guard(func() { ruleWriteMethodsPure(c, "C02-R7", 9) })
+	c.Guard(func() { ruleXRefWidthAgreement(c) })
 	// what the writer puts on disk is what the reader parses: the structural rules of C03 are
 	// necessary conditions of the round trip as well (a wrong /Length or a malformed xref entry is
 	// masked by the reader's recovery paths, which trim or lose data)
-	ruleEmissionLiterals(c, "C02-R9")
-	ruleOffsetCapture(c, "C02-R10")
-	ruleXRefStreamRows(c, "C02-R11")
-	ruleObjStmHeader(c, "C02-R12")
-	ruleObjStmSlots(c, "C02-R13")
-	ruleLoopCarriedTemplates(c, "C02-R16", "pdf")
-	ruleDeferredQueueDetached(c)
-	ruleWriterSideDefaults(c, "C02-R14") // a file the reader cannot authenticate does not round-trip
+	c.Guard(func() { ruleEmissionLiterals(c, "C02-R9") })
+	c.Guard(func() { ruleOffsetCapture(c, "C02-R10") })
+	c.Guard(func() { ruleXRefStreamRows(c, "C02-R11") })
+	c.Guard(func() { ruleObjStmHeader(c, "C02-R12") })
+	c.Guard(func() { ruleObjStmSlots(c, "C02-R13") })
+	c.Guard(func() { ruleLoopCarriedTemplates(c, "C02-R16", "pdf") })
+	c.Guard(func() { ruleDeferredQueueDetached(c) })
+	c.Guard(func() { ruleWriterSideDefaults(c, "C02-R14") }) // a file the reader cannot authenticate does not round-trip
 }
 
 func ruleXRefCompleteness(c *core.Ctx) {
@@ -205,8 +205,9 @@ func ruleXRefCompleteness(c *core.Ctx) {
 						for _, c2 := range core.CallsIn(info, next.AST, false) {
 							if c2.Key == "pdf.encodeInt64" {
 								// the value chosen together with the type byte (same definition), else as written
-								val := core.ExprStr(c2.Call.Args[1])
-								for _, fc := range valueCases(g, next, c2.Call.Args[1], 2) {
+								valArg, _ := encArgs(info, c2.Call)
+								val := core.ExprStr(valArg)
+								for _, fc := range valueCases(g, next, valArg, 2) {
 									// chosen in the same statement, or in the same arm as the type byte
 									if fc.V == tc.V || (tc.V != v && fc.V != next && sameBranch(g, tc.V, fc.V)) {
 										val = core.ExprStr(fc.Expr)
@@ -842,8 +843,9 @@ func ruleXRefWidthAgreement(c *core.Ctx) {
 		if len(cv.Call.Args) != 3 {
 			continue
 		}
-		w := core.ObjOf(info, cv.Call.Args[2])
-		for _, vc := range valueCases(g, cv.V, cv.Call.Args[1], 2) {
+		valArg, widthArg := encArgs(info, cv.Call)
+		w := core.ObjOf(info, widthArg)
+		for _, vc := range valueCases(g, cv.V, valArg, 2) {
 			if _, isConst := core.IntConst(info, vc.Expr); isConst {
 				continue
 			}
@@ -1005,7 +1007,7 @@ func ruleXRefWidthAgreement(c *core.Ctx) {
 				}
 				loopHead = nil
 				for _, bv := range g.BranchVertices() {
-					if bv.Cond.Expr == loop.Cond {
+					if bv.Cond.Expr == loop.Cond || bv.AST == ast.Node(loop.Cond) {
 						loopHead = bv
 					}
 				}
